@@ -12,6 +12,13 @@
  * white-box extra under its own keys (dlist.walker.*); ASan/UBSan throughout
  * (elements are individual blocks; elements handed to clear / erased by a
  * visitor are overwritten with 0xa5 and freed inside the callback).
+ *
+ * Intrusive use with two node members: struct elem embeds `node` and `node2`;
+ * a list is initialised with the offset of one of them (its offset class), so
+ * an element can sit on a class-0 list and on a class-1 list at the same
+ * time.  swap between lists of different class is legal (contents AND offset
+ * change sides); concat between lists of different offset is documented to
+ * do nothing and is checked to do exactly that.
  */
 #include "vrt.h"
 #include "explore.h"
@@ -25,17 +32,22 @@
 struct elem {
     uint32_t magic;
     int id, key;
-    int where;                  /* list index, -1 = free, -3 = find probe */
+    int where[2];               /* per node member: list index, -1 = not linked, -3 = find probe */
     uint64_t pad0;
-    struct cstl_dlist_node node;
+    struct cstl_dlist_node node;        /* offset class 0 */
     uint64_t pad1;
+    struct cstl_dlist_node node2;       /* offset class 1 */
+    uint64_t pad2;
 };
+static const size_t cls_off[2] = { offsetof(struct elem, node), offsetof(struct elem, node2) };
+static struct cstl_dlist_node *node_of(struct elem *e, int c) { return c ? &e->node2 : &e->node; }
 
 static struct elem *pool[MAXE];
 static int npool, nkeys, nlists;
 static struct cstl_dlist L[MAXL];
 static struct elem *M[MAXL][MAXE];
 static int Mn[MAXL];
+static int cls[MAXL];           /* current offset class of each list (swap moves it) */
 
 enum {
     K_PUSH_FRONT = 1, K_PUSH_BACK, K_POP_FRONT, K_POP_BACK, K_INSERT, K_ERASE,
@@ -65,16 +77,24 @@ static struct elem *new_elem(int id, int key)
 {
     struct elem *e = vrt_alloc(sizeof(*e));
     memset(e, 0x5e, sizeof(*e));
-    e->magic = MAGIC; e->id = id; e->key = key; e->where = -1;
+    e->magic = MAGIC; e->id = id; e->key = key; e->where[0] = e->where[1] = -1;
     return e;
 }
 
-/* hand an element that left its list for good back to the allocator:
- * overwrite all of it (including the embedded node), free it, and put a fresh
- * block into its pool slot */
-static void poison_free_renew(struct elem *x)
+/* hand an element that left its class-c list for good back to the allocator:
+ * overwrite all of it (including the embedded nodes), free it, and put a fresh
+ * block into its pool slot.  An element that is still linked into a list of
+ * the other class through its other node cannot be freed: then only the node
+ * it was handed over with is overwritten. */
+static void poison_free_renew(struct elem *x, int c)
 {
     const int id = x->id;
+    if (x->where[!c] >= 0) {
+        memset(node_of(x, c), 0xa5, sizeof(struct cstl_dlist_node));
+        x->where[c] = -1;
+        VRT_COUNT("handed-over.still-on-list-of-other-offset");
+        return;
+    }
     memset(x, 0xa5, sizeof(*x));
     vrt_free(x);
     pool[id] = new_elem(id, id % nkeys);
@@ -105,16 +125,17 @@ static int cmp_find(const void *a, const void *b, void *p)
     return (x->key > y->key) - (x->key < y->key);
 }
 
-#define SCOPE(nl, nk, np) ((nl) | (nk) << 4 | (np) << 8)
+#define SCOPE(nl, nk, np, cm) ((nl) | (nk) << 4 | (np) << 8 | (cm) << 20)
 static void st_create(int scope)
 {
     int i;
-    /* scope: bits 0-3 nlists, 4-7 nkeys, 8-19 npool */
+    /* scope: bits 0-3 nlists, 4-7 nkeys, 8-19 npool, 20-22 offset class of list 0..2 */
     nlists = scope & 15; nkeys = (scope >> 4) & 15; npool = (scope >> 8) & 0xfff;
     for (i = 0; i < npool; i++) pool[i] = new_elem(i, i % nkeys);
     for (i = 0; i < nlists; i++) {
+        cls[i] = (scope >> (20 + i)) & 1;
         memset(&L[i], 0x77, sizeof(L[i]));
-        cstl_dlist_init(&L[i], offsetof(struct elem, node));
+        cstl_dlist_init(&L[i], cls_off[cls[i]]);
         Mn[i] = 0;
     }
 }
@@ -124,11 +145,19 @@ static void st_destroy(void)
     for (i = 0; i < npool; i++) { vrt_free(pool[i]); pool[i] = NULL; }
 }
 
-static struct elem *take_free(int key)
+/* an element of that key whose class-c node is not linked; by default one that is on no list at all
+ * is preferred, with `shared` one that already sits on a list of the other class */
+static struct elem *take_free(int key, int c, int shared)
 {
     int i;
-    for (i = 0; i < npool; i++) if (pool[i]->where < 0 && pool[i]->key == key) return pool[i];
-    return NULL;
+    struct elem *fallback = NULL;
+    for (i = 0; i < npool; i++) {
+        struct elem *e = pool[i];
+        if (e->where[c] >= 0 || e->key != key) continue;
+        if ((e->where[!c] >= 0) == (shared != 0)) return e;
+        if (!fallback) fallback = e;
+    }
+    return fallback;
 }
 
 /* ---- visitors ---- */
@@ -166,7 +195,7 @@ static int visit_cb(void *e, void *p)
         cstl_dlist_erase(&L[w->l], x);
         EXP_gone[i] = 1;
         w->erased++;
-        poison_free_renew(x);
+        poison_free_renew(x, cls[w->l]);
         VRT_COUNT("foreach.visitor-erased-element");
     }
     return r;
@@ -202,8 +231,7 @@ static void audit_list(int l)
 {
     struct cstl_dlist *dl = &L[l];
     struct walkp w;
-    const struct cstl_dlist_node *n;
-    int cnt, r, dir;
+    int r, dir;
 
     audit_cheap(l);
     for (dir = FWD; dir <= REV; dir++) {
@@ -222,7 +250,15 @@ static void audit_list(int l)
         }
         VRT_CHECK(r == 0, "dlist.foreach.ret", "foreach returned %d without a stop request", r);
     }
-    /* link walker over the header-visible fields (white-box extra, own keys) */
+    VRT_COUNT("audit.list");
+}
+
+/* link walker over the header-visible fields (white-box extra, own keys) */
+static void walk_list(int l)
+{
+    struct cstl_dlist *dl = &L[l];
+    const struct cstl_dlist_node *n;
+    int cnt;
     for (n = &dl->h, cnt = 0; cnt <= Mn[l]; cnt++) {
         VRT_CHECK(n->n != NULL && n->n->p == n, "dlist.walker.back-link", "list %d: node %d: n->n->p != n (len %d)", l, cnt, Mn[l]);
         n = n->n;
@@ -231,12 +267,15 @@ static void audit_list(int l)
     VRT_CHECK(n == &dl->h, "dlist.walker.ring-open", "list %d: ring does not close at the sentinel within %d links", l, Mn[l] + 1);
     VRT_CHECK(cnt == Mn[l], "dlist.walker.length", "list %d: ring has %d nodes, reference %d", l, cnt, Mn[l]);
     VRT_CHECK(dl->size == (size_t)Mn[l], "dlist.walker.size-field", "list %d: size field %zu, reference %d", l, dl->size, Mn[l]);
-    VRT_COUNT("audit.list");
+    VRT_CHECK(dl->off == cls_off[cls[l]], "dlist.walker.off-field", "list %d: offset field %zu, the list's node member is at %zu", l, dl->off, cls_off[cls[l]]);
+    VRT_COUNT("audit.link-walk");
 }
 static void audit_all(int level)
 {
     int l;
+    /* the boundary oracle for every list first, the white-box walker afterwards */
     for (l = 0; l < nlists; l++) if (level >= 2) audit_list(l); else audit_cheap(l);
+    if (level >= 2) for (l = 0; l < nlists; l++) walk_list(l);
 }
 
 /* clear callback: exactly-once state machine, poison, free */
@@ -246,28 +285,28 @@ static void clear_cb(void *e, void *p)
     struct elem *x = e;
     VRT_CHECK(p == NULL, "dlist.clear.priv", "clear callback got priv %p", p);
     VRT_CHECK(x->magic == MAGIC, "dlist.clear.non-element", "clear callback for a non-element / twice");
-    VRT_CHECK(x->where == clear_list, "dlist.clear.non-member", "clear callback for element %d which is not in list %d", x->id, clear_list);
+    VRT_CHECK(x->where[cls[clear_list]] == clear_list, "dlist.clear.non-member", "clear callback for element %d which is not in list %d", x->id, clear_list);
     clear_seen++;
-    poison_free_renew(x);
+    poison_free_renew(x, cls[clear_list]);
     VRT_COUNT("clear.handed-over");
 }
 
 static void ins_model(int l, int at, struct elem *e)
 {
     memmove(&M[l][at + 1], &M[l][at], (Mn[l] - at) * sizeof(M[l][0]));
-    M[l][at] = e; Mn[l]++; e->where = l;
+    M[l][at] = e; Mn[l]++; e->where[cls[l]] = l;
 }
 static struct elem *del_model(int l, int at)
 {
     struct elem *e = M[l][at];
     memmove(&M[l][at], &M[l][at + 1], (Mn[l] - at - 1) * sizeof(M[l][0]));
-    Mn[l]--; e->where = -1;
-    memset(&e->node, 0x5e, sizeof(e->node));    /* an unlinked element's node carries nothing the library may rely on */
+    Mn[l]--; e->where[cls[l]] = -1;
+    memset(node_of(e, cls[l]), 0x5e, sizeof(e->node));  /* an unlinked node carries nothing the library may rely on */
     return e;
 }
 static uint64_t keyseq_sig(int l)
 {
-    uint64_t h = 0xfff0 + Mn[l];
+    uint64_t h = 0xfff0 + Mn[l] + 0x10000 * cls[l];
     int i;
     for (i = 0; i < Mn[l]; i++) h = vrt_mix(h, M[l][i]->key + 1);
     return h;
@@ -279,24 +318,27 @@ static int st_apply(uint32_t op, int audit)
     const int kind = OP_KIND(op), l1 = OP_L1(op), l2 = OP_L2(op), key = OP_KEY(op);
     const int pos = OP_POS(op), dir = OP_DIR(op), flav = OP_FLAV(op);
     struct elem *e, *r;
-    int i;
+    int i, c1;
 
     if (l1 >= nlists) return 0;
+    c1 = cls[l1];
     switch (kind) {
     case K_PUSH_FRONT:
-        if (key >= nkeys || (e = take_free(key)) == NULL) return 0;
+        if (key >= nkeys || (e = take_free(key, c1, flav)) == NULL) return 0;
         vrt_state(Mn[l1] ? "nonempty" : "empty");
         VRT_OP3("dlist.push_front", "l%ld e%ld(k%ld)", l1, e->id, key);
         cstl_dlist_push_front(&L[l1], e);
         ins_model(l1, 0, e);
+        if (e->where[!c1] >= 0) VRT_COUNT("op.push.element-also-on-list-of-other-offset");
         VRT_COUNT("op.push_front");
         break;
     case K_PUSH_BACK:
-        if (key >= nkeys || (e = take_free(key)) == NULL) return 0;
+        if (key >= nkeys || (e = take_free(key, c1, flav)) == NULL) return 0;
         vrt_state(Mn[l1] ? "nonempty" : "empty");
         VRT_OP3("dlist.push_back", "l%ld e%ld(k%ld)", l1, e->id, key);
         cstl_dlist_push_back(&L[l1], e);
         ins_model(l1, Mn[l1], e);
+        if (e->where[!c1] >= 0) VRT_COUNT("op.push.element-also-on-list-of-other-offset");
         VRT_COUNT("op.push_back");
         break;
     case K_POP_FRONT:
@@ -329,7 +371,7 @@ static int st_apply(uint32_t op, int audit)
         break;
     case K_INSERT:
         /* cstl_dlist_insert(l, before, obj) links obj directly AFTER `before` */
-        if (pos >= Mn[l1] || key >= nkeys || (e = take_free(key)) == NULL) return 0;
+        if (pos >= Mn[l1] || key >= nkeys || (e = take_free(key, c1, flav)) == NULL) return 0;
         vrt_state(pos == Mn[l1] - 1 ? "after-last" : pos == 0 ? "after-first" : "inner");
         VRT_OP4("dlist.insert", "l%ld after#%ld e%ld(k%ld)", l1, pos, e->id, key);
         cstl_dlist_insert(&L[l1], M[l1][pos], e);
@@ -389,7 +431,7 @@ static int st_apply(uint32_t op, int audit)
                     for (j = 0; j < Mn[l1]; j++) if (M[l1][j] == got[i]) known = 1;
                     VRT_CHECK(known, "dlist.sort.foreign-element", "element at %d after sort was not in the list", i);
                 }
-                VRT_CHECK(got[i]->magic == MAGIC && got[i]->where == l1, "dlist.sort.not-a-permutation",
+                VRT_CHECK(got[i]->magic == MAGIC && got[i]->where[c1] == l1, "dlist.sort.not-a-permutation",
                           "element at %d after sort is not a member / appears twice", i);
                 VRT_CHECK(i == 0 || got[i - 1]->key <= got[i]->key, "dlist.sort.unordered", "keys out of order at %d", i);
                 if (i > 0 && got[i - 1]->key == got[i]->key) {
@@ -400,9 +442,9 @@ static int st_apply(uint32_t op, int audit)
                         if (a > b) unstable = 1;
                     }
                 }
-                got[i]->where = -2;         /* mark seen: detects duplicates */
+                got[i]->where[c1] = -2;     /* mark seen: detects duplicates */
             }
-            for (i = 0; i < gotn; i++) got[i]->where = l1;
+            for (i = 0; i < gotn; i++) got[i]->where[c1] = l1;
             for (i = 0; i < Mn[l1]; i++) M[l1][i] = got[i];
             if (unstable) VRT_COUNT("op.sort.observed-unstable");
         }
@@ -414,10 +456,18 @@ static int st_apply(uint32_t op, int audit)
         vrt_state(Mn[l2] == 0 ? "src-empty" : Mn[l1] == 0 ? "dst-empty" : "both");
         VRT_OP4("dlist.concat", "l%ld(len %ld) += l%ld(len %ld)", l1, Mn[l1], l2, Mn[l2]);
         cstl_dlist_concat(&L[l1], &L[l2]);
+        if (cls[l1] != cls[l2]) {
+            /* lists of different offset: documented (and coded) as "nothing happens"; the audit
+             * below holds both lists to the unchanged model */
+            VRT_COUNT("op.concat.different-offsets-noop");
+            if (Mn[l2]) VRT_COUNT("op.concat.different-offsets-noop.src-nonempty");
+            VRT_COUNT("op.concat");
+            break;
+        }
         if (Mn[l2] == 0) VRT_COUNT("op.concat.src-empty");
         else if (Mn[l1] == 0) VRT_COUNT("op.concat.dst-empty");
         else VRT_COUNT("op.concat.both-nonempty");
-        for (i = 0; i < Mn[l2]; i++) { M[l1][Mn[l1] + i] = M[l2][i]; M[l2][i]->where = l1; }
+        for (i = 0; i < Mn[l2]; i++) { M[l1][Mn[l1] + i] = M[l2][i]; M[l2][i]->where[c1] = l1; }
         Mn[l1] += Mn[l2]; Mn[l2] = 0;
         VRT_COUNT("op.concat");
         break;
@@ -436,8 +486,14 @@ static int st_apply(uint32_t op, int audit)
         memcpy(M[l1], M[l2], Mn[l2] * sizeof(tmp[0]));
         memcpy(M[l2], tmp, tn * sizeof(tmp[0]));
         Mn[l1] = Mn[l2]; Mn[l2] = tn;
-        for (i = 0; i < Mn[l1]; i++) M[l1][i]->where = l1;
-        for (i = 0; i < Mn[l2]; i++) M[l2][i]->where = l2;
+        /* the lists trade places completely: the node member they link through goes with the contents */
+        if (cls[l1] != cls[l2]) {
+            VRT_COUNT("op.swap.different-offsets");
+            if (Mn[l1] || Mn[l2]) VRT_COUNT("op.swap.different-offsets.nonempty");
+            tn = cls[l1]; cls[l1] = cls[l2]; cls[l2] = tn;
+        }
+        for (i = 0; i < Mn[l1]; i++) M[l1][i]->where[cls[l1]] = l1;
+        for (i = 0; i < Mn[l2]; i++) M[l2][i]->where[cls[l2]] = l2;
         VRT_COUNT("op.swap");
         break;
     }
@@ -451,7 +507,7 @@ static int st_apply(uint32_t op, int audit)
             if (c->key == key) { if (!want) want = c; other = c; nmatch++; }
         }
         probe = new_elem(-1, key);
-        probe->where = -3;
+        probe->where[0] = probe->where[1] = -3;
         vrt_state(nmatch == 0 ? "absent" : nmatch == 1 ? "unique" : "duplicates");
         VRT_OP3("dlist.find", "l%ld k%ld dir%ld", l1, key, dir);
         r = cstl_dlist_find(&L[l1], probe, cmp_find, &find_tag, libdir(dir));
@@ -582,46 +638,63 @@ static void st_probe(int pi)
 static struct vex model = { st_create, st_destroy, st_apply_vex, st_sig, st_nontrivial, 0, NULL };
 
 /* ---- closure scopes ---- */
-struct cscope { int nl, nk, np; uint64_t max_states; int max_depth; };
+/* cm: bit l set = list l links through node2 (offset class 1) */
+struct cscope { int nl, nk, np, cm; uint64_t max_states; int max_depth; };
 /* measured (dbg-asan, one worker each): quick scopes <= ~4 s, thorough scopes <= ~40 s */
 static const struct cscope small_scopes[] = {       /* mode "clear", quick tier */
-    { 1, 1, 8, 400000, 40 },
-    { 1, 2, 6, 400000, 40 },
-    { 1, 3, 6, 400000, 40 },
-    { 2, 1, 6, 400000, 40 },
-    { 2, 2, 5, 400000, 40 },
-    { 3, 1, 5, 400000, 40 },
-    { 3, 2, 4, 400000, 40 },
+    { 1, 1, 8, 0, 400000, 40 },
+    { 1, 2, 6, 1, 400000, 40 },
+    { 1, 3, 6, 0, 400000, 40 },
+    { 2, 1, 6, 0, 400000, 40 },
+    { 2, 2, 5, 0, 400000, 40 },
+    { 2, 2, 4, 2, 400000, 40 },
+    { 3, 1, 5, 0, 400000, 40 },
+    { 3, 2, 4, 0, 400000, 40 },
+    { 3, 1, 4, 4, 400000, 40 },
 };
 static const struct cscope quick_scopes[] = {       /* also mode "clear", thorough tier */
-    { 1, 1, 12, 1000000, 60 },          /* one list, lengths 0..12, structure only */
-    { 1, 2, 12, 1000000, 60 },          /* + key values (sort, find with duplicates) */
-    { 1, 3, 9, 1000000, 60 },
-    { 1, 4, 7, 1000000, 60 },
-    { 1, 5, 7, 1000000, 60 },
-    { 2, 1, 10, 1000000, 60 },          /* two lists: concat / swap incl. empty ones */
-    { 2, 2, 8, 1000000, 60 },
-    { 2, 3, 7, 1000000, 60 },
-    { 2, 4, 6, 1000000, 60 },
-    { 3, 1, 8, 1000000, 60 },
-    { 3, 2, 7, 1000000, 60 },
-    { 3, 3, 5, 1000000, 60 },
+    { 1, 1, 12, 0, 1000000, 60 },       /* one list, lengths 0..12, structure only */
+    { 1, 2, 12, 1, 1000000, 60 },       /* + key values (sort, find with duplicates); node2 */
+    { 1, 3, 9, 0, 1000000, 60 },
+    { 1, 4, 7, 1, 1000000, 60 },
+    { 1, 5, 7, 0, 1000000, 60 },
+    { 2, 1, 10, 0, 1000000, 60 },       /* two lists: concat / swap incl. empty ones */
+    { 2, 2, 8, 0, 1000000, 60 },
+    { 2, 3, 7, 3, 1000000, 60 },
+    { 2, 4, 6, 0, 1000000, 60 },
+    { 3, 1, 8, 0, 1000000, 60 },
+    { 3, 2, 7, 0, 1000000, 60 },
+    { 3, 3, 5, 7, 1000000, 60 },
+    /* lists of different offset over the same elements: swap trades offsets, concat is a no-op */
+    { 2, 1, 8, 2, 1000000, 60 },
+    { 2, 2, 5, 1, 1000000, 60 },
+    { 2, 3, 4, 2, 1000000, 60 },
+    { 3, 1, 6, 2, 1000000, 60 },
+    { 3, 1, 6, 6, 1000000, 60 },
+    { 3, 2, 4, 4, 1000000, 60 },
 };
 static const struct cscope thorough_scopes[] = {
-    { 1, 1, 16, 8000000, 80 },
-    { 1, 2, 13, 8000000, 80 },
-    { 1, 3, 10, 8000000, 80 },
-    { 1, 4, 9, 8000000, 80 },
-    { 1, 5, 8, 8000000, 80 },
-    { 1, 6, 7, 8000000, 80 },
-    { 2, 1, 12, 8000000, 80 },
-    { 2, 2, 10, 8000000, 80 },
-    { 2, 3, 8, 8000000, 80 },
-    { 2, 4, 7, 8000000, 80 },
-    { 3, 1, 10, 8000000, 80 },
-    { 3, 2, 8, 8000000, 80 },
-    { 3, 3, 6, 8000000, 80 },
-    { 3, 4, 6, 8000000, 80 },
+    { 1, 1, 16, 0, 8000000, 80 },
+    { 1, 2, 13, 1, 8000000, 80 },
+    { 1, 3, 10, 0, 8000000, 80 },
+    { 1, 4, 9, 1, 8000000, 80 },
+    { 1, 5, 8, 0, 8000000, 80 },
+    { 1, 6, 7, 1, 8000000, 80 },
+    { 2, 1, 12, 0, 8000000, 80 },
+    { 2, 2, 10, 0, 8000000, 80 },
+    { 2, 3, 8, 3, 8000000, 80 },
+    { 2, 4, 7, 0, 8000000, 80 },
+    { 3, 1, 10, 0, 8000000, 80 },
+    { 3, 2, 8, 0, 8000000, 80 },
+    { 3, 3, 6, 7, 8000000, 80 },
+    { 3, 4, 6, 0, 8000000, 80 },
+    { 2, 1, 10, 2, 8000000, 80 },
+    { 2, 2, 6, 1, 8000000, 80 },
+    { 2, 3, 5, 2, 8000000, 80 },
+    { 3, 1, 8, 2, 8000000, 80 },
+    { 3, 1, 7, 6, 8000000, 80 },
+    { 3, 2, 5, 4, 8000000, 80 },
+    { 3, 2, 5, 3, 8000000, 80 },
 };
 #define NSCOPES(a) ((int)(sizeof(a) / sizeof((a)[0])))
 static const struct cscope *scopes;
@@ -667,11 +740,11 @@ static void run_closure(int ci)
     static uint32_t al[MAXALPHA];
     int n = build_alphabet(s, al);
     struct vex_result r;
-    vrt_case_note("closure nlists=%d keys=%d pool=%d alphabet=%d%s", s->nl, s->nk, s->np, n,
+    vrt_case_note("closure nlists=%d keys=%d pool=%d node2-lists=0x%x alphabet=%d%s", s->nl, s->nk, s->np, s->cm, n,
                   is_clear_mode ? " +clear probe in every state" : "");
     model.nprobes = is_clear_mode ? 1 : 0;
     model.probe = st_probe;
-    vex_closure(&model, SCOPE(s->nl, s->nk, s->np), al, n, s->max_states, s->max_depth, &r);
+    vex_closure(&model, SCOPE(s->nl, s->nk, s->np, s->cm), al, n, s->max_states, s->max_depth, &r);
     VRT_COUNT_N("closure.states", r.states);
     VRT_COUNT_N("closure.transitions", r.transitions);
     VRT_COUNT_N("closure.replayed-ops", r.applied);
@@ -684,18 +757,21 @@ static void run_closure(int ci)
 static void run_random(uint64_t idx)
 {
     vrt_rng g;
-    int nl, nk, np, nops, i, bias = 0, maxlen = 0;
+    int nl, nk, np, cm, nops, i, bias = 0, maxlen = 0;
     vrt_rng_seed(&g, vrt_seed, 0xC12000 + idx);
     nl = 1 + vrt_below(&g, 3);
     nk = 1 + vrt_below(&g, 6);
     np = (idx % 8 == 0) ? 400 + vrt_below(&g, 112) : (idx % 8 == 4) ? 60 + vrt_below(&g, 100) : 4 + vrt_below(&g, 40);
+    /* half of the histories: every list links through `node`; the others: a random assignment of
+     * node / node2 per list (incl. all-node2), elements shared between lists of different offset */
+    cm = vrt_chance(&g, 1, 2) ? 0 : 1 + (int)vrt_below(&g, (1u << nl) - 1);
     nops = vrt_thorough ? 8000 : 3000;
-    vrt_case_note("random nlists=%d keys=%d pool=%d ops=%d", nl, nk, np, nops);
-    st_create(SCOPE(nl, nk, np));
+    vrt_case_note("random nlists=%d keys=%d pool=%d node2-lists=0x%x ops=%d", nl, nk, np, cm, nops);
+    st_create(SCOPE(nl, nk, np, cm));
     for (i = 0; i < nops; i++) {
         uint32_t op;
         int l = vrt_below(&g, nl), l2 = vrt_below(&g, nl), k = vrt_below(&g, nk);
-        int len = Mn[l], r = vrt_below(&g, 1000), d = vrt_below(&g, 2);
+        int len = Mn[l], r = vrt_below(&g, 1000), d = vrt_below(&g, 2), sh = vrt_chance(&g, 1, 3);
         /* full both-direction audit + link walk after every call (a corrupted list must not be
          * handed back to the library: it may never return from it) */
         const int audit = 2;
@@ -703,9 +779,9 @@ static void run_random(uint64_t idx)
         if (i % 256 == 0) bias = vrt_below(&g, 3);        /* 0 balanced, 1 fill, 2 drain */
         if (bias == 1 && r >= 400 && r < 660) r = vrt_below(&g, 400);
         if (bias == 2 && r < 300) r = 400 + vrt_below(&g, 260);
-        if (r < 100) op = OP(K_PUSH_FRONT, l, 0, k, 0, 0, 0);
-        else if (r < 230) op = OP(K_PUSH_BACK, l, 0, k, 0, 0, 0);
-        else if (r < 400) op = OP(K_INSERT, l, 0, k, 0, 0, anypos);
+        if (r < 100) op = OP(K_PUSH_FRONT, l, 0, k, 0, sh, 0);
+        else if (r < 230) op = OP(K_PUSH_BACK, l, 0, k, 0, sh, 0);
+        else if (r < 400) op = OP(K_INSERT, l, 0, k, 0, sh, anypos);
         else if (r < 500) op = OP(K_ERASE, l, 0, 0, 0, 0, anypos);
         else if (r < 580) op = OP(K_POP_FRONT, l, 0, 0, 0, 0, 0);
         else if (r < 660) op = OP(K_POP_BACK, l, 0, 0, 0, 0, 0);
@@ -735,7 +811,7 @@ static void run_random(uint64_t idx)
 static uint64_t nrandom(void)
 {
     if (is_clear_mode) return vrt_thorough ? 2000 : 200;
-    return vrt_thorough ? 120000 : 24000;
+    return vrt_thorough ? 120000 : 20000;
 }
 static uint64_t ncases(void)
 {
@@ -765,6 +841,8 @@ static const char *const required[] = {
     "op.reverse.len0-1", "op.reverse.len2", "op.reverse.even", "op.reverse.odd",
     "op.sort", "op.concat.src-empty", "op.concat.dst-empty", "op.concat.both-nonempty",
     "op.swap.both-empty", "op.swap.one-empty", "op.swap.both-nonempty",
+    "op.swap.different-offsets.nonempty", "op.concat.different-offsets-noop.src-nonempty",
+    "op.push.element-also-on-list-of-other-offset", "handed-over.still-on-list-of-other-offset",
     "op.find.absent", "op.find.fwd.duplicates", "op.find.rev.duplicates",
     "op.foreach.fwd", "op.foreach.rev", "op.foreach.early-stop", "op.foreach.early-stop.negative-value",
     "op.foreach.erase-one", "op.foreach.erase-all", "op.foreach.erase-and-stop", "op.foreach.erase-last-visited",
